@@ -452,13 +452,32 @@ def check_weights_and_initialisers(run, A):
     g = A.graphs.get(fn)
     un = [e.term for e in g.events if e.kind == 'call' and is_call_to(e.term, D + 'utils::_unit_norm')]
     if not un:
-        raise AnalysisError('estimate_mixture_weight: _unit_norm call vanished')
+        # another spelling of the saliency branch.  One deviation is recognised: the saliency is normalised over a FIXED axis (its mean / sum over the observations of each slice)
+        # before the pooling over weight_constant_axis - with weights tied across an independent axis every slice then gets the same vote whatever its saliency mass, the tied
+        # weight is no longer the maximiser of the weighted auxiliary function
+        from ..walk import data_derives as _dd
+        all_t = [x for e in g.events if e.term is not None for x in walk_terms(e.term)] + list(walk_terms(g.ret))
+        per_slice = [x for x in all_t if is_call_to(x, 'numpy.mean', 'numpy.sum', 'numpy.average', 'method:mean', 'method:sum') and call_arg(x, 0) is not None
+                     and _dd(call_arg(x, 0), 'saliency') and not _dd(call_arg(x, 0), 'affiliation')
+                     and isinstance(const_val(call_arg(x, 1, 'axis')), (int, tuple)) and not isinstance(const_val(call_arg(x, 1, 'axis')), bool)]
+        hit = None
+        for x in all_t:
+            if x.op in ('binop', 'iop') and x.args[0] == 'Div' and _dd(x.args[1], 'saliency') and any(any(y is r_ for y in walk_terms(x.args[2])) for r_ in per_slice):
+                hit = x
+        if hit is not None:
+            run.violation('R-AXIS', 'estimate_mixture_weight: the saliency enters the pooled class mass as given', fn.loc(getattr(hit, 'node', None)),
+                          f'`{norm_text(hit)}` normalises the saliency over a fixed axis before the affiliation is pooled over weight_constant_axis: slices with different saliency mass '
+                          f'get the same vote in a tied weight (sum_fn s gamma / sum_fn s is replaced by the average of the per-slice weights)',
+                          construct='R-AXIS::estimate_mixture_weight::saliency-normalised-per-slice')
+        else:
+            run.unresolved('R-AXIS', 'estimate_mixture_weight: L1 normalisation over the class axis', fn.loc(), 'the saliency branch is not `_unit_norm(sum(affiliation * saliency, axis=weight_constant_axis), ord=1, axis=-2)`')
     for t in un:
         ax, od, st = call_arg(t, None, 'axis'), call_arg(t, None, 'ord'), call_arg(t, None, 'eps_style')
         run.check(const_val(ax) == -2 and const_val(od) == 1 and const_val(st) == 'where', 'R-AXIS', 'estimate_mixture_weight: L1 normalisation over the class axis', fn.loc(t.node),
                   '_unit_norm(ord=1, axis=-2, eps_style="where")', f'weights normalised with axis={const_val(ax)!r}, ord={const_val(od)!r}, eps_style={const_val(st)!r}',
                   construct='R-AXIS::estimate_mixture_weight::l1-class-axis')
-    means = [e.term for e in g.events if e.kind == 'call' and is_call_to(e.term, 'numpy.mean')]
+    from ..walk import data_derives as _dd2
+    means = [e.term for e in g.events if e.kind == 'call' and is_call_to(e.term, 'numpy.mean') and call_arg(e.term, 0) is not None and _dd2(call_arg(e.term, 0), 'affiliation')]
     for t in means:
         ax, kd = call_arg(t, 1, 'axis'), call_arg(t, None, 'keepdims')
         okax = isinstance(ax, T) and any(x.op == 'param' and x.args[0] == 'weight_constant_axis' for x in walk_terms(ax))
